@@ -44,13 +44,10 @@ pub fn p_c17_base_cell(x: f64, y: f64) {
   assert!(b < 12, "C17: base cell out of range");
   let cx = BASE_CX[b as usize] as f64;
   let cy = BASE_CY[b as usize] as f64;
-  let mut dx = xa - cx;
-  if dx > 4.0 { dx -= 8.0; }
-  if dx < -4.0 { dx += 8.0; }
-  let adx = if dx < 0.0 { -dx } else { dx };
-  let dy = y - cy;
-  let ady = if dy < 0.0 { -dy } else { dy };
-  assert!(adx + ady <= 1.0, "C17: base_cell_from_proj_coo returns a base cell whose closed diamond does not contain the point");
+  // closed diamond of the base cell, up to the identifications of the sphere (a polar facet border is shared with the next facet)
+  // and a rounding tolerance of 2^-50
+  let e = ref_excess_center(cx, cy, 1.0, xa, y);
+  assert!(e <= 8.881784197001252e-16, "C17: base_cell_from_proj_coo returns a base cell whose closed diamond does not contain the point");
 }
 
 pub fn p_c17_guard(which: u8, a: f64, b: f64) {
